@@ -279,6 +279,55 @@ def attribute(case, msgs):
     return None
 
 
+CLI_MODULE = [
+    {"k": "function", "doc": 0, "params": ["p"]}, {"k": "close"}, {"k": "macro", "doc": 0, "params": []}, {"k": "close"},
+    {"k": "cpp_class", "doc": 0}, {"k": "cpp_attr", "doc": 0, "default": "v"},
+    {"k": "cpp_member", "doc": 0, "types": ["int"], "params": ["a"]}, {"k": "close"},
+    {"k": "cpp_constructor", "doc": 0, "types": [], "params": []}, {"k": "close"}, {"k": "close"},
+    {"k": "ct_add_test", "doc": 0}, {"k": "ct_add_section", "doc": 0}, {"k": "close"}, {"k": "close"},
+    {"k": "add_test", "doc": 0}, {"k": "option", "doc": 0},
+    {"k": "function", "doc": 1, "params": ["q"]}, {"k": "close"}, {"k": "cpp_class", "doc": 1},
+    {"k": "cpp_constructor", "doc": 1, "types": ["int"], "params": ["x"]},
+]
+
+
+def check_cli(job):
+    """the options as a user sets them: a settings file (-s or the per-user configuration) read by the real command line"""
+    from .. import fsbox, refmodel
+    import yaml
+    source, off = job
+    cfg = dict.fromkeys(FLAGS, True)
+    for f in off:
+        cfg[f] = False
+    box = fsbox.Box("c08")
+    msgs = []
+    try:
+        box.build({"in/m.cmake": cmakegen.text_of(CLI_MODULE)})
+        y = yaml.safe_dump({"input": {f: False for f in off}}) if off else "{}\n"
+        with open(box.path("work", "s.yaml"), "w") as fh:
+            fh.write(y if source == "sfile" else "{}\n")
+        r = box.run(["-s", "s.yaml", "-o", "out", "in"], user_config=y if source == "user" else None)
+        if r["status"] != 0:
+            msgs.append(f"error: run failed: {r['exc'] or r['stdout'][-200:]}")
+        else:
+            page = rstobs.Page(box.files("work/out")["m.rst"])
+            obs = [rstobs.abstract_entry(b) for b in page.entries()]
+            # oracle: the same module documented through the API with a Settings object that carries these values
+            # (which entries that must be is the main sweep's business; here: the file reaches the listener unchanged)
+            r2 = pipeline.document_text(cmakegen.text_of(CLI_MODULE), pipeline.make_settings(cfg))
+            exp = [rstobs.abstract_entry(b) for b in rstobs.Page(r2["page"]).entries()] if r2["page"] else None
+            if exp is None:
+                msgs.append(f"error: API run failed: {r2['error']}")
+            elif [(e["kind"], e["rawsig"]) for e in exp] != [(o["kind"], o["rawsig"]) for o in obs] or exp != obs:
+                diff = [o["rawsig"] for o in obs if o not in exp] + ["-" + e["rawsig"] for e in exp if e not in obs]
+                msgs.append(f"settings-file: with {', '.join(f[len('include_undocumented_'):] for f in off) or 'nothing'} switched off in "
+                            f"the {source} file the command line's page differs from the page under the same Settings object: {diff[:4]}")
+    finally:
+        box.cleanup()
+    return {"viol": msgs[:4], "obs": common.digest([job, msgs]), "nt": common.digest(job), "n": 1, "known": 0, "ndig": 1,
+            "k1_example": None, "cls": ("cli " + msgs[0].split(":")[0]) if msgs else None, "case": {"cli": [source, list(off)]}}
+
+
 def run(ctx):
     quick = ctx.tier == "quick"
     n_all, n_red, n_single, maxnest = (1, 2, 4, 2) if quick else (2, 4, 5, 3)
@@ -307,6 +356,10 @@ def run(ctx):
         jobs += short
         results += ctx.sweep(functools.partial(check_module, case=oc), short, space=f"modules <=2 events, {oc} case", chunk=16,
                              selftest=2)
+    cj = [(src, off) for src in ("sfile", "user") for off in [()] + [(f,) for f in FLAGS] + [tuple(FLAGS)]
+          # (switching classes off while a documented class exists is K1's input class: left to the main sweep)
+          if "include_undocumented_cpp_class" not in off]
+    ctx.sweep(check_cli, cj, space="each option switched off through a settings file on the command line", selftest=1)
     known = sum(r["known"] for r in results)
     ctx.cov["distinct_pages"] = sum(r["ndig"] for r in results)
     if known:
@@ -324,6 +377,8 @@ def run(ctx):
 
 
 def replay(case):
+    if isinstance(case, dict) and "cli" in case:
+        return check_cli((case["cli"][0], tuple(case["cli"][1])))["viol"]
     events = case[0] if isinstance(case, list) else case.get("events", [])
     mode = case[1] if isinstance(case, list) else case.get("mode", "all")
     if not events:
